@@ -12,12 +12,14 @@ import Dm.Driver.DelCmd
 import Dm.Driver.BytesCmd
 import Dm.Driver.LegacyCmd
 import Dm.Driver.GnCmd
+import Dm.Driver.TaCmd
 
 /- Line-protocol driver of the Lean model: one request per line, one answer per line. -/
 
 def handle (line : String) : String :=
   let l := line.trimAscii.toString
   if l.startsWith "fx " then Dm.FmtXCmd.cmdFx (l.drop 3).toString else
+  if l.startsWith "ta " then Dm.TaCmd.cmdTa (l.drop 3).toString else
   if l.startsWith "gn " then Dm.GnCmd.cmdGn (l.drop 3).toString else
   if l.startsWith "la " then Dm.LegacyCmd.cmdLa (l.drop 3).toString else
   if l.startsWith "dl " then Dm.DelCmd.cmdDl (l.drop 3).toString else
